@@ -89,4 +89,8 @@ func init() {
 	add("C09", "R09k: the keep flag the from-roots constructor stores with a root depends on its full argument, never a constant.", "")
 	add("C08", "R08i: in the cached-proof update and undo no return is taken on TreeRows(x) == 0 alone (a forest of one leaf has zero rows and a provable leaf).", "")
 	add("C16", "R16e: a row (DetectRow result or loop counter) is compared with a forest height (TreeRows result, TotalRows field, a parameter receiving one at every call site) only inclusively.", "")
+	add("C09", "R09l: no exit of the loop that climbs from a pruned leaf to its root depends on a look-up of the node store or the leaf index. R09m: the store of the nodes the hashing core calculated runs on every iteration of ingest's loop.", "")
+	add("C13", "R13n: every scalar field of the node record stored by the map forest's restore loop is computed from bytes read off the stream.", "")
+	add("C14", "R14l: a subtraction step of AddProof runs on every path or is skipped only on a test of the length of the subtracted list.", "")
+	add("C08", "R08j: a callee that describes one forest (one leaf count, one height) is never handed the leaf count n together with TreeRows(n - k).", "")
 }
